@@ -9,7 +9,7 @@ eqns[idx+1:], on a COPIED environment, binding this equation's outvars, with reb
 import ast
 
 from ..finite import Unrecognised, ev_int
-from ..interp import check_loop, safe_maps
+from ..interp import check_loop, env_read_over, safe_maps
 from ..program import AnalysisError
 from ..rules import is_call, is_mcall, mentions
 from ..terms import C, Evaluator, G, P, is_t, mk_elem, mk_proj, mk_slice, show, subterms
@@ -204,7 +204,7 @@ def run(chk, prog):
     chk.require(bool(okrc), "ISP-CONSTS", "eval_jaxpr_iterate_cps/operands", "record-point operands: drop the PREPENDED constants", derived=show(where_t)[:240] if where_t else "no tree_unflatten(in_tree, ...) found",
                 expected="tree_unflatten(params['in_tree'], args[params['num_consts']:])", where=where)
     final = [t for c, t in arms if is_t(t, "tuple") and len(t[1]) == 2 and t[1][1] == C(None)]
-    okf = len(final) == 1 and is_call(final[0][1][0], "tree_unflatten") and is_call(final[0][1][0][2][1], "safe_map") and final[0][1][0][2][1][2][1] == ("attr", P("jaxpr"), "outvars")
+    okf = len(final) == 1 and is_call(final[0][1][0], "tree_unflatten") and env_read_over(final[0][1][0][2][1]) == ("attr", P("jaxpr"), "outvars")
     chk.require(okf, "INTERP-SKELETON", "eval_jaxpr_iterate_cps/outputs", "final value read from jaxpr.outvars; no further frame", derived=show(final[0])[:200] if final else "none", expected="(tree_unflatten(out_tree(), safe_map(env.read, jaxpr.outvars)), None)", where=where)
     ttf = CI.methods["time_travel"]
     inn = prog.nested(ttf, "_inner")
